@@ -20,7 +20,8 @@ for f in sorted(glob.glob(os.path.join(ROOT, "seeded", "*", "meta.json"))):
             first = next((l for l in c["first_lines"] if l.startswith(("violation", "regression"))), "")
             sig = first.split(" ")[1] if first.startswith("violation") else ("regress replay" if first else "")
             caught.append(f"{p} `{sig}`" if sig else p)
-    rows.append((name.split("-")[0], name, title[:90], ", ".join(caught) if caught else "**not caught**", m.get("confirmed")))
+    miss = "**not caught**" + (" — " + m["acknowledged_miss"].split(":", 1)[1].strip()[:230] + " …" if m.get("acknowledged_miss") else "")
+    rows.append((name.split("-")[0], name, title[:90], ", ".join(caught) if caught else miss, m.get("confirmed")))
 print("| seeded change | what it is | caught by (first signature) |")
 print("|---|---|---|")
 for pid, name, title, caught, conf in rows:
